@@ -44,6 +44,9 @@
 #ifndef OBUF
 #define OBUF 50
 #endif
+#ifndef F2L
+#define F2L 7     /* line number of the one Teletext line of the SECOND frame (h_mux_packets, h_mux_cor_equiv) */
+#endif
 /* Service ids/mask: symbolic by default.  With -DID0=.. [-DID1 ..] -DMASK=.. they are fixed by the grid, which makes
  * every data-unit offset and the demultiplexer's output cursor concrete (measured: a 4-byte store through a
  * symbolic frame.sp costs ~100 K clauses, ~2.3 M clauses per demux loop iteration); line numbers, payload,
@@ -560,7 +563,7 @@ V_HARNESS(h_mux_packets)
   }
   /* the multiplexer stays usable: a second, valid frame (one Teletext line 7) is accepted; TS continuity goes on */
   calls1 = rec_calls; len1 = rec_len;
-  sl2[0].id = VBI_SLICED_TELETEXT_B; sl2[0].line = 7;
+  sl2[0].id = VBI_SLICED_TELETEXT_B; sl2[0].line = F2L;
   ok = vbi_dvb_mux_feed(mx, sl2, 1, VBI_SLICED_TELETEXT_B, NULL, NULL, pts2);
   V_ASSERT(ok, "next_valid_frame_accepted");
   V_ASSERT(rec_calls == calls1 + PMIN / 184 || !TS, "second_frame_ts_packets");
@@ -570,7 +573,7 @@ V_HARNESS(h_mux_packets)
     V_ASSERT(size == PMIN, "second_frame_size");
     if (size == PMIN) {
       check_pes_header(pes, size, pts2, di);
-      V_ASSERT(pes[46] == 0x02 && pes[47] == 0x2C && pes[48] == (0xC0 | 0x20 | 7) && pes[49] == 0xE4, "second_frame_unit");
+      V_ASSERT(pes[46] == 0x02 && pes[47] == 0x2C && pes[48] == exp_lofp(F2L, F2L >= 313) && pes[49] == 0xE4, "second_frame_unit");
       for (j = 0; j < 42; j++) V_ASSERT(pes[50 + j] == ref_rev8(sl2[0].data[j]), "second_frame_payload");
       check_stuffing_tail(pes, size, 46 + 46, FIXED, tix, PES_TAIL_UNITS);
     }
@@ -579,7 +582,7 @@ V_HARNESS(h_mux_packets)
 
 #ifdef WITH_DEMUX
   /* the library's demultiplexer on everything that was emitted: frame 1 (if accepted) comes back at the frame boundary
-   * (line 7 of frame 2 is not above the last line of frame 1) with its PTS; frame 2 is pending with its PTS */
+   * (line F2L of frame 2 is not above the last line of frame 1 - grid: lower or EQUAL) with its PTS; frame 2 is pending with its PTS */
   setup_demux(pid);
   V_ASSERT(vbi_dvb_demux_feed(&RDX, rec, rec_len), "e2e_demux_feed_ok");
   /* FRAME: members of the 70 KB object that must stay untouched (CBMC checks member indices only against the end of the
@@ -602,6 +605,72 @@ V_HARNESS(h_mux_packets)
     check_demuxed(&ROUT[0], &sl2[0], K_TTX);
   }
 #endif
+  V_END();
+}
+
+/* (b2) capacity: the biggest frame the multiplexer accepts - every permitted line used: Teletext 7..15, VPS 16, Teletext 17..20,
+ * Caption 21, Teletext 22, WSS 23, Teletext 320..335 = MAXFR lines (EN 301 775: lines 7..23 of both fields; libzvbi encodes no
+ * sliced service on line 336) - goes through the REAL demultiplexer object with its OWN frame array (real vbi_dvb_demux_reset,
+ * nothing re-pointed) and comes back complete at the next frame boundary.  Line structure concrete (symex = constant
+ * propagation), payload of the first, a middle (VPS) and the last line and of the second frame symbolic. */
+#define MAXFR 33
+static struct { unsigned calls, n; const vbi_sliced *base; unsigned line[MAXFR + 1]; uint32_t id[MAXFR + 1]; vbi_sliced first, mid, last; } MLOG;
+static vbi_bool maxfr_cb(vbi_dvb_demux *dx, void *ud, const vbi_sliced *sliced, unsigned int n, int64_t pts)
+{
+  unsigned i; (void) pts;
+  V_ASSERT(dx == &RDX && ud == (void *) &MLOG, "demux_cb_args");
+  if (MLOG.calls == 0) {
+    MLOG.n = n; MLOG.base = sliced;
+    for (i = 0; i < MAXFR + 1; i++) if (i < n) { MLOG.line[i] = sliced[i].line; MLOG.id[i] = sliced[i].id; }
+    if (n == MAXFR) { MLOG.first = sliced[0]; MLOG.mid = sliced[9]; MLOG.last = sliced[MAXFR - 1]; }
+  }
+  MLOG.calls++;
+  return TRUE;
+}
+V_HARNESS(h_demux_maxframe)
+{
+  static vbi_sliced sl[MAXFR], sl2[1]; static uint8_t du[MAXFR * 46], du2[46];
+  uint8_t *p; const uint8_t *q; unsigned left, sleft, k, n = 0, di; const vbi_sliced *s; int err; vbi_bool ok;
+  V_INIT();
+  for (k = 7; k <= 23; k++, n++) { sl[n].line = k; sl[n].id = k == 16 ? VBI_SLICED_VPS : k == 21 ? VBI_SLICED_CAPTION_625 : k == 23 ? VBI_SLICED_WSS_625 : VBI_SLICED_TELETEXT_B; }
+  for (k = 320; k <= 335; k++, n++) { sl[n].line = k; sl[n].id = VBI_SLICED_TELETEXT_B; }
+  in_bytes(sl[0].data, 42); in_bytes(sl[9].data, 13); in_bytes(sl[MAXFR - 1].data, 42); in_bytes(sl2[0].data, 42);
+#ifdef DI
+  di = DI;
+#else
+  di = 0x10;     /* concrete: a symbolic data_identifier makes every unit length (memset/memcpy size) symbolic */
+#endif
+  sl2[0].id = VBI_SLICED_TELETEXT_B; sl2[0].line = F2L;
+  p = du; left = sizeof du; s = sl; sleft = MAXFR;
+  ok = vbi_dvb_multiplex_sliced(&p, &left, &s, &sleft, 0xFFFFFFFFu, di, FALSE);
+  V_ASSERT(ok && left == 0 && sleft == 0, "maxframe_multiplexed");
+  p = du2; left = sizeof du2; s = sl2; sleft = 1;
+  ok = vbi_dvb_multiplex_sliced(&p, &left, &s, &sleft, 0xFFFFFFFFu, di, FALSE);
+  V_ASSERT(ok && left == 0 && sleft == 0, "second_frame_multiplexed");
+
+  vbi_dvb_demux_reset(&RDX);
+  RDX.callback = maxfr_cb; RDX.user_data = &MLOG; MLOG.calls = 0;
+  RDX.frame.n_data_units_extracted_from_packet = 0;              /* as demux_pes_packet() does for every PES packet */
+  q = du; left = sizeof du;
+  err = demux_pes_packet_frame(&RDX, &q, &left);
+  V_ASSERT(err == 0, "maxframe_packet_accepted");
+  V_ASSERT(MLOG.calls == 0, "maxframe_not_delivered_early");
+  V_ASSERT(RDX.frame.sp == RDX.frame.sliced_begin + MAXFR, "maxframe_all_lines_stored");
+  RDX.frame.n_data_units_extracted_from_packet = 0;
+  q = du2; left = sizeof du2;
+  err = demux_pes_packet_frame(&RDX, &q, &left);
+  V_ASSERT(err == 0, "maxframe_next_packet_accepted");
+  V_ASSERT(MLOG.calls == 1 && MLOG.n == MAXFR && MLOG.base == RDX.frame.sliced_begin, "maxframe_delivered_once_complete");
+  if (MLOG.calls == 1 && MLOG.n == MAXFR) {
+    for (k = 0; k < MAXFR; k++) {
+      V_ASSERT(MLOG.line[k] == sl[k].line, "rt_line");
+      V_ASSERT(svc_class(MLOG.id[k]) == svc_class(sl[k].id) && (MLOG.id[k] & sl[k].id) != 0, "rt_service");
+    }
+    check_demuxed(&MLOG.first, &sl[0], K_TTX); check_demuxed(&MLOG.mid, &sl[9], K_VPS); check_demuxed(&MLOG.last, &sl[MAXFR - 1], K_TTX);
+    V_REACH("maxframe");
+  }
+  V_ASSERT(RDX.frame.sp == RDX.frame.sliced_begin + 1, "maxframe_second_frame_pending");
+  check_demuxed(&RDX.frame.sliced_begin[0], &sl2[0], K_TTX);
   V_END();
 }
 
@@ -636,9 +705,9 @@ V_HARNESS(h_mux_reject_state)
 /* coroutine interface with an OBUF byte output buffer delivers the same bytes as the callback interface */
 V_HARNESS(h_mux_cor_equiv)
 {
-  static vbi_sliced sl[NL];
+  static vbi_sliced sl[NL], sl2[1];
   static uint8_t cor_out[RECMAX], chunk[OBUF];
-  unsigned pid, di, total, cor_len = 0, it, i; uint32_t mask; int64_t pts; vbi_bool ok, ok2 = 1; int good;
+  unsigned pid, di, total, cor_len = 0, it, i; uint32_t mask; int64_t pts, pts2; vbi_bool ok, ok2 = 1; int good;
   vbi_dvb_mux *mx, *mx2; const vbi_sliced *s; unsigned sleft;
   V_INIT();
   in_bytes(sl, sizeof sl); mask = in_u32(); pts = (int64_t) in_u64(); in_config(&pid, &di);
@@ -673,6 +742,35 @@ V_HARNESS(h_mux_cor_equiv)
   } else {
     V_ASSERT(cor_len == 0, "cor_rejected_emits_nothing");
     V_ASSERT(s >= sl && s < sl + NL && sleft == (unsigned) (sl + NL - s), "cor_rejected_names_line");
+  }
+  /* HISTORY: whatever happened to the first frame (accepted, rejected for its content, rejected for its size), a second,
+   * valid frame (one Teletext line F2L) comes out of both interfaces with the same bytes ("leaves the multiplexer usable";
+   * the callback side is pinned down by h_mux_packets) */
+  {
+    unsigned len1 = rec_len, cor1 = cor_len, calls1 = rec_calls; vbi_bool okb;
+    in_bytes(sl2[0].data, 42); pts2 = (int64_t) in_u64();
+    sl2[0].id = VBI_SLICED_TELETEXT_B; sl2[0].line = F2L;
+    rec_mx = mx;
+    okb = vbi_dvb_mux_feed(mx, sl2, 1, VBI_SLICED_TELETEXT_B, NULL, NULL, pts2);
+    V_ASSERT(okb, "next_valid_frame_accepted");
+    V_ASSERT(rec_len == len1 + (TS ? (PMIN / 184) * 188 : PMIN) && rec_calls > calls1, "second_frame_min_size");
+    s = sl2; sleft = 1; ok2 = 1;
+    for (it = 0; it < RECMAX / OBUF + 2 && sleft > 0 && ok2; it++) {
+      uint8_t *bp = chunk; unsigned bl = OBUF, got;
+      ok2 = vbi_dvb_mux_cor(mx2, &bp, &bl, &s, &sleft, VBI_SLICED_TELETEXT_B, NULL, NULL, pts2);
+      if (!ok2) break;
+      got = OBUF - bl;
+      V_ASSERT(bp == chunk + got, "cor2_buffer_ptr_consistent");
+      V_ASSERT(got > 0, "cor2_progress");
+      V_ASSERT(bl == 0 || sleft == 0, "cor2_fills_buffer_or_finishes");
+      for (i = 0; i < OBUF; i++) if (i < got && cor_len + i < RECMAX) cor_out[cor_len + i] = chunk[i];
+      cor_len += got;
+    }
+    V_ASSERT(ok2, "cor2_next_valid_frame_accepted");
+    V_ASSERT(sleft == 0 && s == sl2 + 1, "cor2_consumed_frame");
+    V_ASSERT(cor1 == (ok ? len1 : 0) && cor_len - cor1 == rec_len - len1, "cor2_same_length");
+    for (i = 0; i < RECMAX; i++)
+      if (i >= len1 && i < rec_len && i < cor_len) V_ASSERT(cor_out[i] == rec[i], "cor2_same_bytes");
   }
   release_mux(mx2);
   V_END();
